@@ -230,14 +230,16 @@ func OpenDB(args ...interface{}) (massdb.MassDB, error) {
 		}
 	}
 
+	// the identity of an opened db is the one recorded in its file, so that the caller
+	// can compare it with the name it opened the file by
 	return &MassDBV1{
 		HashMapA:   hmA,
 		HashMapB:   hmB,
 		filePathA:  pathA,
 		filePathB:  pathB,
-		bl:         bitLength,
-		pubKey:     pubKey,
-		pubKeyHash: pocutil.PubKeyHash(pubKey),
+		bl:         hmB.bl,
+		pubKey:     hmB.pk,
+		pubKeyHash: hmB.pkHash,
 	}, nil
 }
 
